@@ -18,7 +18,7 @@ CHECKS = {
    note="Trusted: reference encoder; raw memory is only read for types that claim to be padding-free. repr(Rust) layouts get no prediction, only the two-path relations."),
  "C12": dict(cat="exploration", design="DESIGN.md §3 C12",
    technique="property-based testing: independent schema-driven reader parses the library's bytes using only get_schema::<T>(v)",
-   text="For every generated definition, version and value the bytes of bare_serialize are parsed by a generic reader that knows only the reported schema; it must consume exactly all bytes and recover the same primitives, lengths and variants as the value. Non-recursive types must not contain Recursion markers.",
+   text="For every generated definition, version and value the bytes of bare_serialize are parsed by a generic reader that knows only the reported schema; it must consume exactly all bytes and recover the same primitives, lengths and variants as the value. Non-recursive types must not contain Recursion markers. Schema nodes with a known misdescription (open findings) are read with the true layout substituted so that the rest of the type is still checked; each substitution is then switched off on its own to reproduce exactly that finding.",
    note="Trusted: the mirror conversion of savefile::Schema through its public fields; recursion frames of recursive types are located by walking type and schema in parallel."),
 }
 
@@ -35,7 +35,7 @@ CHECKS.update({
 
 CHECKS.update({
  "C05": dict(cat="exploration", design="DESIGN.md §3 C05",
-   technique="property-based testing over generated type pairs (single-edit mutants, insignificant twins, unrelated pairs) with a type-level wire normal form as oracle; enumerated header corruptions",
+   technique="property-based testing over generated type pairs (ten kinds of single-edit wire-altering twins incl. a versioned variant declared before older ones, insignificant twins, unrelated pairs) with a type-level wire normal form as oracle; enumerated header corruptions",
    text="Ordered pairs (saved type, loaded type) are generated together with values: where the wire normal forms differ load must fail with IncompatibleSchema (never Ok, panic or another error); where the documentation calls the difference insignificant it must succeed with the same value. Header corruptions must be rejected without reading past the 16-byte header.",
    note="Acceptance is asserted only for documented-insignificant differences; pairs that share a normal form carry no expectation. Normal forms of private leaf encodings come from the observed format."),
 })
@@ -57,9 +57,9 @@ CHECKS.update({
 
 CHECKS.update({
  "C06": dict(cat="exploration", design="DESIGN.md §3 C06",
-   technique="fuzzing: structure-aware mutation of valid encodings (proptest, role-labelled spans from the reference encoder) with an in-process semantic oracle; coverage-guided libFuzzer+ASan target in the thorough tier",
-   text="Valid encodings of generated types are mutated (lengths, tags, discriminants, chars, UTF-8, truncation, splices, random bodies) and loaded through single and bulk paths: the result must be Ok or Err; panics are violations unless they are allocation failures on a declared length the reference decoder confirms as absurd; for Ok every bool/char/enum discriminant must be valid and no collection may exceed what the input could encode. Process death is attributed to the case by the worker protocol.",
-   note="Inputs declaring lengths that would make the allocator fail (abort) or zero-width loops run for hours are skipped by a reference-decoder pre-screen or, when they slip through, counted as excepted (allocation >= 1 GiB for a < 4 kB input; 8 s per-case limit). Debug profile with overflow checks; release+ASan via the fuzz target."),
+   technique="fuzzing: structure-aware mutation of valid encodings (proptest, role-labelled spans from the reference encoder) with an in-process semantic oracle and crash attribution by worker processes",
+   text="Valid encodings of generated types are mutated (lengths, tags, discriminants, chars, UTF-8, small arithmetic on count-like words inside private encodings, truncation, splices, random bodies) and loaded through single and bulk paths: the result must be Ok or Err; panics are violations unless they are allocation failures on a declared length the reference decoder confirms as absurd; for Ok every bool/char/enum discriminant must be valid and no collection may exceed what the input could encode. Process death is attributed to the case by the worker protocol.",
+   note="Inputs declaring lengths that would make the allocator fail (abort) or zero-width loops run for hours are skipped by a reference-decoder pre-screen or, when they slip through, counted as excepted (allocation >= 1 GiB for a < 4 kB input; 8 s per-case limit). Debug profile with overflow checks, no sanitizer: invalid values are detected by inspecting the returned memory (bool/char bytes, raw enum tags, bit containers longer than their storage), spatial errors only as crashes. The libFuzzer crate under fuzz/ is not used by this command (DESIGN.md §7.7)."),
 })
 
 CHECKS.update({
@@ -77,7 +77,7 @@ CHECKS.update({
    note="Hand-edited schema files and Send/Sync/receiver changes are not generated."),
  "C16": dict(cat="exploration", design="DESIGN.md §3 C16, engine/ABI_INTEGRATION.md §3",
    technique="randomised schedule sampling: generated multi-thread programs run in fresh processes with seeded perturbation, compared against the sequential run; watchdog with deadlock confirmation",
-   text="LOW ASSURANCE (sampling of schedules only). Generated programs for 2..16 threads create connections (first use and cached, same and different interfaces, nested creation through closures/trait objects) and call shared connections; results must equal the sequential run and all threads must finish; a stuck process is only reported as a violation after confirmation (all threads asleep with unchanged CPU time over three samples, gdb backtrace attached), otherwise inconclusive.",
+   text="LOW ASSURANCE (sampling of schedules only). Generated programs for 2..16 threads create connections (first use and cached, same and different interfaces, nested creation through closures/trait objects) and call shared connections; results must equal the sequential run and all threads must finish; a stuck process is only reported as a violation after confirmation (all threads asleep with unchanged CPU time over three samples, gdb backtrace attached), otherwise inconclusive. In addition, exhaustively over every generated interface revision (unbounded, `: Send`, `: Send + Sync`), AbiConnection<dyn Trait> must be Send / Sync only if the interface declares it (compile-time answer observed at a monomorphic call site).",
    note="Absence of races/deadlocks is not established. No ThreadSanitizer build, no lock-site hooks, no load_shared_library path (no cdylib)."),
 })
 
@@ -138,7 +138,7 @@ def main():
                      "kind_free_text": "Rust workspace: typegen (seeded generator of type definitions) + reference model + proptest-driven check binaries, rebuilt against /repo by path dependency"}],
         "checks": checks,
         "not_applicable": na,
-        "notes": "All checks are generated-input search against explicit oracles (property-based testing / fuzzing). Exit 2 = inconclusive (harness/build/watchdog), never a verdict.",
+        "notes": "All checks are generated-input search against explicit oracles (property-based testing / fuzzing). Exit 2 = inconclusive (harness/build/watchdog), never a verdict. The thorough tier runs each check over several generated batches of definitions (seeds derived from VERIF_SEED; round 0 = the quick tier's batch) with 8-25x the cases per unit; evidence accumulates over the rounds. Sensitivity against 18 independently written property-breaking changes: seeded/ and DESIGN.md §7.6.",
     }
     json.dump(m, open(os.path.join(V, "MANIFEST.json"), "w"), indent=1)
     try:
